@@ -137,6 +137,46 @@ def leaf_classes():
     return _LEAF_CLASSES
 
 
+_MINIMAL_WALKER = None
+
+
+def minimal_walker_class():
+    global _MINIMAL_WALKER  # noqa: PLW0603
+    if _MINIMAL_WALKER is None:
+        import urwid  # noqa: PLC0415
+
+        class MinimalWalker(urwid.ListWalker):
+            def __init__(self, items):
+                self.items = list(items)
+                self.at = 0
+
+            def get_focus(self):
+                return (self.items[self.at], self.at) if self.items else (None, None)
+
+            def set_focus(self, position):
+                if isinstance(position, bool) or not isinstance(position, int) or not 0 <= position < len(self.items):
+                    err = IndexError(f"no item at position {position!r}")
+                    err.verif_application_side = True
+                    raise err
+                self.at = position
+                self._modified()
+
+            def get_next(self, position):
+                p = position + 1
+                return (self.items[p], p) if 0 <= p < len(self.items) else (None, None)
+
+            def get_prev(self, position):
+                p = position - 1
+                return (self.items[p], p) if 0 <= p < len(self.items) else (None, None)
+
+        _MINIMAL_WALKER = MinimalWalker
+    return _MINIMAL_WALKER
+
+
+def is_minimal(base) -> bool:
+    return _MINIMAL_WALKER is not None and isinstance(getattr(base, "body", None), _MINIMAL_WALKER)
+
+
 class Node:
     """Model of one position of the tree: `w` is what the parent holds (possibly a Filler /
     BoxAdapter around `base`), `kids` mirrors the children (Frame: [body, header, footer] with None
@@ -261,7 +301,15 @@ class _Run:
                 base.focus_position = fp % len(kids)
         elif k == "ListBox":
             kids = [self.build(s, "flow") for s in spec.get("kids", [])]
-            base = urwid.ListBox(urwid.SimpleFocusListWalker([c.w for c in kids]))
+            wk = spec.get("walker", "focus")
+            if wk == "minimal" and kids:
+                # a walker that implements the documented ListWalker interface only (get_focus / set_focus / get_next /
+                # get_prev): not sized, not indexable, no positions() - like urwid's own TreeWalker
+                base = urwid.ListBox(minimal_walker_class()([c.w for c in kids]))
+            elif wk == "simple":
+                base = urwid.ListBox(urwid.SimpleListWalker([c.w for c in kids]))
+            else:
+                base = urwid.ListBox(urwid.SimpleFocusListWalker([c.w for c in kids]))
             fp = spec.get("fp")
             if fp is not None and kids:
                 base.focus_position = fp % len(kids)
@@ -508,7 +556,7 @@ class _Run:
     def live_contents(self, n: Node):
         b = n.base
         if n.kind == "ListBox":
-            return list(b.body)
+            return list(b.body.items) if is_minimal(b) else list(b.body)
         if n.kind == "Frame":
             return [b.body, b.header, b.footer]
         if n.kind == "Overlay":
@@ -551,7 +599,9 @@ class _Run:
         if self.model_child(n, pos) is None and not (cls == "Overlay" and pos == 0):
             self.violate("C08.1", f"focus_position-invalid {cls}", f"{where}: focus_position={pos!r}, valid positions {self.model_positions(n)!r}")
             return "invalid"
-        if cls == "ListBox":
+        if cls == "ListBox" and is_minimal(b):
+            got = got2 = self.read(lambda: b.body.items[pos], "items[focus_position]")  # (contents needs a list-like walker)
+        elif cls == "ListBox":
             got = self.read(lambda: b.body[pos], "body[focus_position]")
             got2 = self.read(lambda: b.contents[pos][0], "contents[focus_position]")
         else:
@@ -912,6 +962,8 @@ class _Run:
         if cls not in LIST_KINDS:
             return "skip-not-a-list-container"
         b = n.base
+        if is_minimal(b):
+            return "skip-walker-is-not-a-list"
         m = op["m"]
         new = [self.build(s, "flow") for s in op.get("new", [])]
         for c in new:
@@ -1136,6 +1188,7 @@ class ContainersEngine(Engine):
                 spec.update(cw=rng.choice([3, 5, 8]), hsep=rng.choice([0, 1]), vsep=rng.choice([0, 0, 1]))
             if kind == "ListBox":
                 spec["h"] = rng.choice([2, 3, 5])
+                spec["walker"] = rng.choice(["focus", "focus", "focus", "simple", "minimal"])
             return spec
         if kind == "Frame":
             spec = {"k": "Frame", "body": self.gen_node(rng, "box", depth - 1, budget, ctr, dull=dull), "h": rng.choice([3, 5, 7])}
